@@ -42,10 +42,11 @@ Lemma binv_slot s s' t x' m :
   t_pc x' = WCursor -> t_msg x' = m -> t_pos x' = (s_cursor s + 1) mod cap c ->
   t_cnt x' = t_cnt (s_thr s t) -> t_got x' = t_got (s_thr s t) -> t_gotn x' = t_gotn (s_thr s t) ->
   t_idx x' = t_idx (s_thr s t) -> t_ret x' = t_ret (s_thr s t) ->
+  t_start x' = t_start (s_thr s t) ->
   BInv c s'.
 Proof.
   intros HA [Hsh Hall] E1 E2 E3 E4 E5 E6 E7 E8 E9 E10 Ethr Hwn Hnl Hcr Hsg Hlk Htw
-         X1 X2 X3 X4 X5 X6 X7 X8.
+         X1 X2 X3 X4 X5 X6 X7 X8 X9.
   pose proof (cap_pos c) as HK. pose proof (wf_pre _ Hwf) as Hpre. pose proof (a_cfg _ _ HA) as Hcfg.
   destruct Hsh as [B1 B2 B3 B4 B5 B6 B7 B8 B9].
   split.
@@ -57,14 +58,14 @@ Proof.
   - intros u. rewrite Ethr. unfold upd. destruct (Nat.eqb_spec u t).
     + subst u. destruct (Hall t) as (K0 & Kr & Ko & _). unfold bthr_ok. rewrite X4. split; [exact K0|].
       split; [|split].
-      * unfold rd_ok in *. rewrite E2, E3, E4, X4, X5, X7. intros Hm. destruct (Kr Hm) as (A & B & C).
-        split; [exact A|]. split; [exact B|]. intros Hr. rewrite is_reader_writer in Hr by assumption. discriminate.
+      * unfold rd_ok in *. rewrite E2, E3, E4, X4, X5, X7, X9. intros Hm. destruct (Kr Hm) as (A0 & A & B & C).
+        split; [exact A0|]. split; [exact A|]. split; [exact B|]. intros Hr. rewrite is_reader_writer in Hr by assumption. discriminate.
       * eapply on_ok_eq; eauto. rewrite X1. simpl. discriminate.
       * unfold pc_ok. rewrite X1, E2, E4, E10, X2, X3. split; [lia|]. split.
         -- rewrite B1. apply zupd_same.
         -- rewrite B1. apply mod_succ. exact HK.
     + eapply others_slot; eauto.
-      all: try (intros Hm Hr; eapply nolap_reader; eauto).
+      all: try (intros Hm Hr Hrem; eapply nolap_reader; eauto).
       all: try (intros Hw; apply Hsg; assumption).
 Qed.
 
@@ -100,7 +101,9 @@ Proof.
         -- inv_some Hs.
            eapply binv_frame; [same_tac | reflexivity | exact (b_free _ _ Hsh) | exact HB |].
            eapply bthr_change; [exact (Hall t) | reflexivity | reflexivity | reflexivity | reflexivity
-                               | reflexivity | simpl; intros; discriminate | unfold pc_ok; simpl; exact I].
+                               | reflexivity | reflexivity
+                               | intros Hr; rewrite is_reader_writer in Hr by auto; discriminate
+                               | simpl; intros; discriminate | unfold pc_ok; simpl; exact I].
         -- inv_some Hs. simpl in Hlap. apply orb_false_elim in Hlap as [_ Hl]. apply negb_false_iff in Hl.
            eapply (binv_slot s _ t); try reflexivity; try eassumption; simpl.
            ++ apply Kpc. reflexivity.
@@ -114,7 +117,8 @@ Proof.
     { destruct (c_wm c) eqn:Ewm; [reflexivity|]. specialize (Hsgl eq_refl t). rewrite Epc in Hsgl. discriminate. }
     inv_some Hs.
     eapply binv_frame; [same_tac | reflexivity | simpl; intros _ H; discriminate | exact HB |].
-    eapply bthr_change; [exact (Hall t) | reflexivity | reflexivity | reflexivity | reflexivity | reflexivity | | ].
+    eapply bthr_change; [exact (Hall t) | reflexivity | reflexivity | reflexivity | reflexivity | reflexivity
+                        | reflexivity | reflexivity | | ].
     + simpl. destruct (s_lock s =? 0); simpl; discriminate.
     + unfold pc_ok. simpl. destruct (Z.eqb_spec (s_lock s) 0); simpl; [|exact I].
       apply (b_free _ _ Hsh); assumption.
@@ -201,33 +205,36 @@ Proof.
            ++ eapply bthr_same; [same_tac | exact (Hall u)].
       * inv_some Hs. pc_only HB Hsh Hall t. exact Kpc.
   - (* RSeg *)
-    destruct (t_rem (s_thr s t)); inv_some Hs; pc_only HB Hsh Hall t; exact I.
+    destruct (t_rem (s_thr s t)) eqn:Erem; inv_some Hs; pc_only HB Hsh Hall t; [exact I|].
+    rewrite Erem. discriminate.
   - (* RLoad *)
     assert (Hm : c_rm c <> ROnce) by (apply (a_rm_r _ _ HA t); rewrite Epc; reflexivity).
     assert (Hrd : is_reader c t = true) by (apply (a_rrole _ _ HA t); rewrite Epc; reflexivity).
-    destruct (Kr Hm) as (A & B & C). destruct (C Hrd) as [C1 C2].
+    destruct (Kr Hm) as (A0 & A & B & C). destruct (C Hrd) as (C0 & C1 & C2).
     inv_some Hs.
     eapply binv_frame; [same_tac | reflexivity | exact (b_free _ _ Hsh) | exact HB |].
-    eapply bthr_change; [exact (Hall t) | reflexivity | reflexivity | reflexivity | reflexivity | reflexivity | | ].
+    eapply bthr_change; [exact (Hall t) | reflexivity | reflexivity | reflexivity | reflexivity | reflexivity
+                        | reflexivity | reflexivity | | ].
     + simpl. destruct (s_cursor s =? t_idx (s_thr s t) mod cap c); [destruct (c_rm c)|]; simpl; discriminate.
     + unfold pc_ok. simpl. destruct (Z.eqb_spec (s_cursor s) (t_idx (s_thr s t) mod cap c)) as [E|E].
       * destruct (c_rm c); simpl; exact I.
-      * simpl. rewrite (b_cur _ _ Hsh), C2 in E.
-        destruct (Z.eq_dec (s_nw s) (c_pre c + t_cnt (s_thr s t))) as [E2|E2]; [rewrite E2 in E; congruence|lia].
+      * simpl. rewrite (b_cur _ _ Hsh), C2 in E. split; [|exact Kpc].
+        destruct (Z.eq_dec (s_nw s) (t_start (s_thr s t) + t_cnt (s_thr s t))) as [E2|E2]; [rewrite E2 in E; congruence|lia].
   - (* RRead *)
     assert (Hm : c_rm c <> ROnce) by (apply (a_rm_r _ _ HA t); rewrite Epc; reflexivity).
     assert (Hrd : is_reader c t = true) by (apply (a_rrole _ _ HA t); rewrite Epc; reflexivity).
-    destruct (Kr Hm) as (A & B & C). destruct (C Hrd) as [C1 C2].
+    destruct (Kr Hm) as (A0 & A & B & C). destruct (C Hrd) as (C0 & C1 & C2).
+    destruct Kpc as [Kpc Krem]. specialize (C1 Krem).
     inv_some Hs.
     eapply binv_frame; [same_tac | reflexivity | exact (b_free _ _ Hsh) | exact HB |].
     unfold bthr_ok. simpl. split; [lia|]. split; [|split].
-    + unfold rd_ok. simpl. intros _. split; [lia|]. split.
+    + unfold rd_ok. simpl. intros _. split; [exact A0|]. split; [lia|]. split.
       * intros k Hk. unfold zupd. destruct (Z.eqb_spec k (t_cnt (s_thr s t))).
         -- subst k. rewrite C2. apply (b_slots _ _ Hsh); lia.
         -- apply B. lia.
-      * intros _. split; [lia|]. rewrite Z.add_assoc. apply idx_next_mod; [apply (wf_k _ Hwf)|exact C2].
+      * intros _. split; [exact C0|]. split; [intros _; lia|]. rewrite Z.add_assoc. apply idx_next_mod; [apply (wf_k _ Hwf)|exact C2].
     + unfold on_ok. intros Hm'. contradiction.
-    + unfold pc_ok. simpl. destruct (pred (t_rem (s_thr s t))); simpl; exact I.
+    + unfold pc_ok. simpl. destruct (pred (t_rem (s_thr s t))) eqn:Epr; simpl; [exact I|discriminate].
   - (* RWaitSeg *) inv_some Hs. pc_only HB Hsh Hall t. exact I.
   - (* RWaitOp *)
     destruct (s_cursor s =? t_pos (s_thr s t)); [destruct (Nat.eqb ch 1); [|destruct (Nat.eqb ch 2)]|]; inv_some Hs; pc_only HB Hsh Hall t; exact I.
@@ -238,6 +245,7 @@ Proof.
     destruct (s_mtx s =? 0); [|discriminate]. inv_some Hs.
     eapply binv_frame; [same_tac | reflexivity | exact (b_free _ _ Hsh) | exact HB |].
     eapply bthr_change; [exact (Hall t) | reflexivity | reflexivity | reflexivity | reflexivity | reflexivity
+                        | reflexivity | reflexivity
                         | simpl; intros; discriminate | unfold pc_ok; simpl; exact I].
   - (* KSeg *) inv_some Hs. pc_only HB Hsh Hall t. exact I.
   - (* KLoad *)
@@ -245,6 +253,7 @@ Proof.
     inv_some Hs.
     eapply binv_frame; [same_tac | reflexivity | exact (b_free _ _ Hsh) | exact HB |].
     eapply bthr_change; [exact (Hall t) | reflexivity | reflexivity | reflexivity | reflexivity | reflexivity
+                        | reflexivity | reflexivity
                         | simpl; intros; discriminate | ].
     unfold pc_ok. simpl. exists (s_nw s). pose proof (b_nt _ _ Hsh). pose proof (b_wbeg _ _ Hsh).
     pose proof (b_nolap_once _ _ Hsh Hm). split; [apply (b_cur _ _ Hsh)|]. lia.
